@@ -22,7 +22,7 @@ ASSUMPTIONS = [
 ]
 PARTIAL = [
     "C08_injective covers classes with a constant, non-exempt prefix whose token covers all operands; the exempt prefix group "
-    "'operation' is an open collision (D17), the groups add_prefix/add_suffix/getitem/loc are kept apart by operand kinds the table does not see",
+    "'operation' is an open collision (finding S1 of the C08 search: prefix "operation"), the groups add_prefix/add_suffix/getitem/loc are kept apart by operand kinds the table does not see",
     "task keys of DiskShuffle are drawn from uuid1 (D11) and the order of `Fused.exprs` depends on PYTHONHASHSEED: both are "
     "outside the model (names are a function of the tree; the tree the optimizer builds is not a function of the query alone)",
 ]
